@@ -292,9 +292,13 @@ tzm_find(tzmap_t m, const char *mname)
 			/* use lower half */
 			ep = (const znoff_t*)p - 1U;
 		} else {
+			const znoff_t *op;
+
+			/* skip what is left of this entry's key, the offset
+			 * sits behind the whole key, not behind the mismatch */
+			for (; tp < end && *tp; tp++);
 			/* forward to the next znoff_t alignment */
-			const znoff_t *op =
-				(const znoff_t*)ALIGN_TO(znoff_t, tp - 1U) + 1U;
+			op = (const znoff_t*)ALIGN_TO(znoff_t, tp - 1U) + 1U;
 
 			if (op >= beg + nmn) {
 				/* no room for the offset */
